@@ -791,8 +791,10 @@ def stream_solve(c, n, alias=False):
 
 
 def stream_sources(c, n):
-    """generated Modelica models with min/max/nominal attributes + a user bounds() below
-    ModelicaMixin in the MRO: bounds() and the transcribed lbx/ubx are the intersection"""
+    """generated Modelica models (Real state; Real / Integer / Boolean algebraic states and inputs) with and
+    without min / max / nominal attributes + a user bounds() below ModelicaMixin in the MRO: bounds()[v] and the
+    transcribed lbx/ubx entries of v are the intersection of exactly the declared sources (the default box
+    (0, 1) only for a Boolean variable, (-inf, inf) for every other type)"""
     import shutil
     import tempfile
 
@@ -807,12 +809,31 @@ def stream_sources(c, n):
     lines, meta = [], []
     try:
         for k in range(n):
-            names = ["x0", "y0", "u0"]
+            # declared type of every variable: Real / Integer / Boolean states (Real only: der), algebraic
+            # states and inputs; with and without min / max attributes
+            decl = [("x0", "Real", "state"), ("y0", "Real", "alg"), ("u0", "Real", "input"), ("ni", "Integer", "input")]
+            if rng.random() < 0.7:
+                decl.append(("na", "Integer", "alg"))
+            if rng.random() < 0.75:
+                decl.append(("bi", "Boolean", "input"))
+                if rng.random() < 0.6:
+                    decl.append(("ba", "Boolean", "alg"))
+            names = [d[0] for d in decl]
+            typ = {d[0]: d[1] for d in decl}
             att = {}
             for nm in names:
-                lo = rng.choice([None, -5.0, -1.5, 0.0, -20.0])
-                hi = rng.choice([None, 20.0, 3.0, 7.5, 1.0])
-                nom = rng.choice([None, 10.0, 0.1, 2.0])
+                if typ[nm] == "Real":
+                    lo = rng.choice([None, -5.0, -1.5, 0.0, -20.0])
+                    hi = rng.choice([None, 20.0, 3.0, 7.5, 1.0])
+                    nom = rng.choice([None, 10.0, 0.1, 2.0])
+                elif typ[nm] == "Integer":
+                    lo = rng.choice([None, None, 0, 2, -3])
+                    hi = rng.choice([None, None, 5, 4, 1, 10])
+                    nom = None
+                else:
+                    lo = rng.choice([None, None, None, 0])
+                    hi = rng.choice([None, None, None, 1])
+                    nom = None
                 att[nm] = (lo, hi, nom)
 
             def attrs(nm, extra=""):
@@ -826,15 +847,26 @@ def stream_sources(c, n):
                     a.append("nominal=%r" % nom)
                 return "(" + ", ".join(a) + ")" if a else ""
 
-            text = ("model B%d\n  Real x0%s;\n  Real y0%s;\n  input Real u0%s;\nequation\n"
-                    "  der(x0) = -0.5 * x0 + u0;\n  y0 = 2.0 * x0;\nend B%d;\n"
-                    % (k, attrs("x0"), attrs("y0"), attrs("u0", "fixed=false"), k))
+            eqs = ["der(x0) = -0.5 * x0 + u0;", "y0 = 2.0 * x0;"]
+            if "na" in typ:
+                eqs.append("na = ni + 2;")
+            if "ba" in typ:
+                eqs.append("ba = not bi;")
+            text = "model B%d\n" % k
+            for (nm, ty, role) in decl:
+                text += "  %s%s %s%s;\n" % ("input " if role == "input" else "", ty, nm,
+                                            attrs(nm, "fixed=false" if role == "input" else ""))
+            text += "equation\n" + "".join("  %s\n" % e for e in eqs) + "end B%d;\n" % k
             with open(os.path.join(tmp, "B%d.mo" % k), "w") as f:
                 f.write(text)
             user = {}
             for nm in names:
-                if rng.random() < 0.7:
+                if typ[nm] == "Real" and rng.random() < 0.7:
                     user[nm] = (rng.choice([-INF, -7.0, -1.0, 0.5, -5.0]), rng.choice([INF, 12.0, 2.0, 20.0, 0.75]))
+                elif typ[nm] == "Integer" and rng.random() < 0.4 and not (nm == "ni" and k % 2 == 0):
+                    user[nm] = (rng.choice([-INF, 0.0, 1.0, -2.0]), rng.choice([INF, 3.0, 6.0, 1.0]))
+                elif typ[nm] == "Boolean" and rng.random() < 0.3:
+                    user[nm] = (rng.choice([-INF, 0.0, 1.0]), rng.choice([INF, 1.0, 0.0]))
             sol = S.RecordingSolver()
             tgrid = [0.0, 1.0, 2.5]
 
@@ -862,7 +894,7 @@ def stream_sources(c, n):
                 def objective(self, ensemble_member):
                     return ca.MX(0)
 
-            case = {"model": text, "user_bounds": user}
+            case = {"model": text, "user_bounds": {kk: list(vv) for kk, vv in user.items()}}
             try:
                 with quiet_fd():
                     p = P(model_folder=tmp, model_name="B%d" % k, input_folder=tmp, output_folder=tmp)
@@ -881,12 +913,17 @@ def stream_sources(c, n):
             ubx = np.array(rec["ubx"], dtype=float).ravel()
             b = p.bounds()
             for nm in names:
-                srcs_lo = [x for x in (att[nm][0], user.get(nm, (None, None))[0]) if x is not None]
-                srcs_hi = [x for x in (att[nm][1], user.get(nm, (None, None))[1]) if x is not None]
+                # the declared sources: min / max attributes, the user's pair, and - only for a Boolean variable
+                # without a user entry - the default box (0, 1); nothing else (an Integer has no default box)
+                dflt = (0.0, 1.0) if typ[nm] == "Boolean" and nm not in user else (None, None)
+                srcs_lo = [float(x) for x in (att[nm][0], user.get(nm, (None, None))[0], dflt[0]) if x is not None]
+                srcs_hi = [float(x) for x in (att[nm][1], user.get(nm, (None, None))[1], dflt[1]) if x is not None]
                 exp_lo = max(srcs_lo) if srcs_lo else -INF
                 exp_hi = min(srcs_hi) if srcs_hi else INF
                 got = tuple(map(float, b[nm]))
-                c.count(("sources", att[nm][0] is None, att[nm][1] is None, nm in user, att[nm][2] is None))
+                c.count(("sources", typ[nm], att[nm][0] is None, att[nm][1] is None, nm in user, att[nm][2] is None))
+                c.hit("sources/%s%s%s" % (typ[nm], "+minmax" if (att[nm][0], att[nm][1]) != (None, None) else "",
+                                          "+user" if nm in user else ""))
                 if got != (exp_lo, exp_hi):
                     c.fail("bounds() is not the intersection of the model's min/max and the user's bounds", case,
                            {"variable": nm, "expected": [exp_lo, exp_hi], "got": list(got)})
@@ -900,6 +937,14 @@ def stream_sources(c, n):
                                 "lbx": float(lbx[ix]), "ubx": float(ubx[ix]), "nominal": nomv})
                         break
                 lines.append(dict(op="intersect", lo=[fr(x) for x in srcs_lo], hi=[fr(x) for x in srcs_hi]))
+                meta.append((case, nm, got))
+                # the model of ModelicaMixin.bounds()[v] itself: declared type, user pair, min / max
+                mb = dict(op="mobox", bool=(typ[nm] == "Boolean"),
+                          min=fr(float(att[nm][0]) if att[nm][0] is not None else -INF),
+                          max=fr(float(att[nm][1]) if att[nm][1] is not None else INF))
+                if nm in user:
+                    mb["ulo"], mb["uhi"] = fr(user[nm][0]), fr(user[nm][1])
+                lines.append(mb)
                 meta.append((case, nm, got))
         outs = c.model(lines) if lines else []
         if outs is not None:
@@ -1000,7 +1045,7 @@ def run(c):
     stream_interp(c, c.n(600, 8000))
     stream_solve(c, c.n(10, 60))
     stream_solve(c, c.n(5, 30), alias=True)
-    stream_sources(c, c.n(3, 25))
+    stream_sources(c, c.n(4, 25))
     c.notes.append("random streams are samples; the unbounded claim is carried by the theorems; the oracle "
                    "re-states the property on the real lbx/ubx of every generated instance")
 
